@@ -176,11 +176,59 @@ var zzXPaths = []string{
 	"/R/T[x='1'][@a='1']",
 	"//T[@a='1'][x]",
 	"/R/T[x='1'] [@a='1']",
+	"/R/T[x!='\u00e9'][@a='1']",
 }
 
 // zzXBase: the same paths without the final step's predicates (the candidates), written out
 // by hand so that the reference does not depend on the code that splits the expression.
-var zzXBase = []string{"/R/T", "//T", "/R/T", "/R/*", "/R/T", "/R/Q/T", "//T", "/R/T", "/R/T", "//T", "/R/T"}
+var zzXBase = []string{"/R/T", "//T", "/R/T", "/R/*", "/R/T", "/R/Q/T", "//T", "/R/T", "/R/T", "//T", "/R/T", "/R/T"}
+
+// C04XmlNs: candidates are told apart by their namespace prefix, not only by their local name:
+// <R xmlns:p="u:p"> with 2..3 children, each <T> or <p:T>, target xpaths with and without prefix.
+func C04XmlNs() {
+	xi := zz.NondetChoice("xpath", 4)
+	xp := []string{"/R/p:T", "/R/T", "/R/p:T[x='1']", "/R/*[x='1']"}[xi]
+	base := []string{"/R/p:T", "/R/T", "/R/p:T", "/R/*"}[xi]
+	root := &zzX{name: "R", attrs: [][2]interface{}{{"xmlns:p", []byte("u:p")}}}
+	n := 2 + zz.NondetChoice("nkids", 2)
+	for i := 0; i < n; i++ {
+		k := &zzX{name: "T", kids: []*zzX{zzLeafX()}}
+		if zz.NondetBool("prefixed") {
+			k.prefix, k.uri = "p", "u:p"
+		}
+		root.kids = append(root.kids, k)
+	}
+	refRoot := CreateXMLNode(DocumentNode, "", XMLSpecific{})
+	root.buildNs(refRoot)
+	cands, err := MatchAll(refRoot, base)
+	zz.Assume(err == nil)
+	full, err := MatchAll(refRoot, xp)
+	zz.Assume(err == nil)
+	var want []string
+	for _, c := range cands {
+		for _, f := range full {
+			if f == c {
+				want = append(want, zzSer(c))
+			}
+		}
+	}
+	sp, err := NewXMLStreamReader(&zzChunkReader{data: root.write(nil), failAt: -1}, xp)
+	zz.Assume(err == nil)
+	got := 0
+	for i := 0; i < n+1; i++ {
+		rec, err := sp.Read()
+		if err != nil {
+			zz.Cover("eof")
+			zz.Assert(err == io.EOF && got == len(want), "every node the xpath selects on the whole document was delivered")
+			return
+		}
+		zz.Cover("delivered")
+		zz.Assert(got < len(want) && zzSer(rec) == want[got], "delivered node is the next selected node, complete")
+		got++
+		sp.Release(rec)
+	}
+	zz.Fail("no terminal result within the read bound")
+}
 
 // C04XmlSelect: the records the streaming reader delivers are exactly what the same xpath
 // selects on the fully loaded document: outermost candidates only, delivered iff they satisfy
@@ -274,6 +322,12 @@ func zzNsDoc() *zzX {
 	root.kids = append(root.kids, c1)
 	if zz.NondetBool("mixed") {
 		root.kids = append(root.kids, &zzX{text: []byte(" m ")})
+	}
+	// child 1b: an element that un-declares the default namespace for itself (xmlns=""), then
+	// a sibling that is in the outer default namespace again
+	if def && zz.NondetBool("undeclare") {
+		u := &zzX{name: "U", attrs: [][2]interface{}{{"xmlns", []byte("")}}, kids: []*zzX{{name: "w", kids: []*zzX{{text: zzVal("t3")}}}}}
+		root.kids = append(root.kids, u, &zzX{name: "V", uri: uriA, kids: []*zzX{{text: zzVal("t4")}}})
 	}
 	// child 2: binds uriB to another prefix q (same URI, later declaration) and uses it
 	if zz.NondetBool("rebind") {
